@@ -73,6 +73,8 @@ theorem takeWhile_eq_self_of (p : α → Bool) (xs : List α) (h : xs.dropWhile 
 
 @[simp] theorem ok_map {γ δ : Type} (a : γ) (f : γ → δ) : (f <$> (Except.ok a : Py γ)) = .ok (f a) := rfl
 
+theorem pure_eq_ok {γ : Type} (a : γ) : (pure a : Py γ) = Except.ok a := rfl
+
 /-! ### items -/
 
 @[simp] theorem item2_cons (n : Nat) (t : List Nat) : item2 (n :: t) 0 0 = .ok n := by
